@@ -2,6 +2,7 @@
 import codec_uper
 import gen_asn1 as G
 
+GENERIC = True      # usable by the generic drivers of codec_common
 CODEC = 'per'
 COQ_IMPORTS = ['Base.Bits', 'Base.Utf8', 'Per.UperImpl', 'Per.PerImpl']
 
